@@ -243,3 +243,126 @@ func c06secondUniverse(g *Gen, i int, prog []GenPkg) ([]string, bool) {
 	}
 	return problems, true
 }
+
+// c01vendored: a GOPATH layout in which the path written in an import declaration ("lib") is not the
+// path of the package it resolves to ("<app>/vendor/lib"). What gengo reports as the direct imports of
+// the requested package is compared with what the type checker imported (packages.Load run
+// independently, Types.Imports()), and every reported import must lead to the package of that path.
+// Four layouts by construction (k%4): one vendored dependency; a vendored dependency which imports a
+// second vendored one; a vendored and a plain package of the same last element; two requested packages
+// sharing one vendor directory.
+func c01vendored(g *Gen) {
+	for k := 0; k < 4; k++ {
+		gopath := filepath.Join(os.Getenv("VERIF_WORK"), fmt.Sprintf("c01vend%d", k))
+		os.RemoveAll(gopath)
+		write := func(rel, content string) {
+			full := filepath.Join(gopath, "src", filepath.FromSlash(rel))
+			os.MkdirAll(filepath.Dir(full), 0755)
+			os.WriteFile(full, []byte(content), 0644)
+		}
+		app := []string{"app", "vapp/cmd", "app", "vapp"}[k]
+		root := []string{"app", "vapp", "app", "vapp"}[k] // the directory which holds vendor/
+		pats := []string{app}
+		write(root+"/vendor/lib/lib.go", "package lib\n\ntype Thing struct {\n\tN int8\n}\n")
+		write("plain/plain.go", "package plain\n\ntype Other struct {\n\tS string\n}\n")
+		src := "package app\n\nimport (\n\t\"lib\"\n\t\"plain\"\n)\n\ntype App struct {\n\tThing lib.Thing\n\tOther *plain.Other\n}\n"
+		switch k {
+		case 1:
+			write(root+"/vendor/lib/lib.go", "package lib\n\nimport \"dep\"\n\ntype Thing struct {\n\tN int8\n\tD dep.D\n}\n")
+			write(root+"/vendor/dep/dep.go", "package dep\n\ntype D struct {\n\tR rune\n}\n")
+		case 2:
+			write("other/lib/lib.go", "package lib\n\ntype Thing struct {\n\tU uint8\n}\n")
+			src = "package app\n\nimport (\n\t\"lib\"\n\tolib \"other/lib\"\n\t\"plain\"\n)\n\ntype App struct {\n\tThing lib.Thing\n\tOther *plain.Other\n\tThird olib.Thing\n}\n"
+		case 3:
+			write("vapp/second/second.go", "package second\n\nimport \"lib\"\n\ntype S struct {\n\tT *lib.Thing\n}\n")
+			pats = append(pats, "vapp/second")
+		}
+		write(app+"/app.go", src)
+		cfg := &packages.Config{
+			Dir: filepath.Join(gopath, "src", filepath.FromSlash(app)),
+			Env: append(os.Environ(), "GO111MODULE=off", "GOPATH="+gopath, "GOFLAGS=", "GOWORK=off"),
+		}
+		// the type checker's answer
+		ocfg := *cfg
+		ocfg.Mode = packages.NeedName | packages.NeedFiles | packages.NeedImports | packages.NeedDeps | packages.NeedTypes | packages.NeedSyntax | packages.NeedTypesInfo
+		loaded, err := packages.Load(&ocfg, pats...)
+		if err != nil || len(loaded) != len(pats) {
+			panic(fmt.Sprintf("c01vendored: packages.Load: %v (%d packages)", err, len(loaded)))
+		}
+		want := map[string][]string{}
+		for _, lp := range loaded {
+			if len(lp.Errors) > 0 || lp.Types == nil {
+				panic(fmt.Sprintf("c01vendored: the layout does not type-check: %v", lp.Errors))
+			}
+			w := []string{}
+			for _, imp := range lp.Types.Imports() {
+				w = append(w, imp.Path())
+			}
+			sort.Strings(w)
+			want[lp.PkgPath] = w
+		}
+		if w := want[app]; len(w) < 2 || !strings.Contains("\x00"+strings.Join(w, "\x00")+"\x00", "\x00"+root+"/vendor/lib\x00") {
+			panic(fmt.Sprintf("c01vendored: unexpected imports from the type checker: %q", w))
+		}
+		// gengo's answer
+		p := parser.New()
+		var u types.Universe
+		err = p.LoadPackagesWithConfigForTesting(cfg, pats...)
+		if err == nil {
+			u, err = p.NewUniverse()
+		}
+		if err != nil {
+			g.Emit("C01.vendored!", list(num(k), atom(err.Error())), boolS(false), "vendored-package", "LOAD-ERROR")
+			os.RemoveAll(gopath)
+			continue
+		}
+		ok := true
+		var report []string
+		var reqs []string
+		for r := range want {
+			reqs = append(reqs, r)
+		}
+		sort.Strings(reqs)
+		for _, r := range reqs {
+			pk := u[r]
+			got := []string{}
+			if pk != nil {
+				for path, imp := range pk.Imports {
+					got = append(got, path)
+					if imp == nil || imp.Path != path || u[path] != imp {
+						ok = false
+					}
+				}
+			}
+			sort.Strings(got)
+			report = append(report, list(atom(r), atoms(want[r]), atoms(got)))
+			if pk == nil || strings.Join(got, "\x00") != strings.Join(want[r], "\x00") {
+				ok = false
+			}
+			// every type mentioned by a field lives in a package reported as imported
+			if pk != nil {
+				for _, t := range pk.Types {
+					for _, m := range t.Members {
+						mt := m.Type
+						for mt.Kind == types.Pointer {
+							mt = mt.Elem
+						}
+						if mt.Name.Package != "" && mt.Name.Package != r && !pk.HasImport(mt.Name.Package) {
+							ok = false
+						}
+					}
+				}
+			}
+		}
+		// the vendored package is in the universe under its resolved path and under no other
+		vl := u[root+"/vendor/lib"]
+		if vl == nil || vl.Types["Thing"] == nil || len(vl.Types["Thing"].Members) == 0 || vl.Types["Thing"].Members[0].Type != types.Int8 {
+			ok = false
+		}
+		if pl, has := u["lib"]; has && len(pl.Types) > 0 {
+			ok = false
+		}
+		g.Emit("C01.vendored!", list(append([]string{num(k)}, report...)...), boolS(ok), "vendored-package", fmt.Sprintf("vendored-layout-%d", k))
+		os.RemoveAll(gopath)
+	}
+}
